@@ -109,7 +109,7 @@ func runPrio[E comparable, F arith.Fp[E], V arith.Vec[V, E], P arith.Poly[P, E]]
 		}
 	}
 
-	bf.Chunks(nTuples(), chunk, func(lo, hi int, c bf.Ctr) {
+	bf.Chunks(nTuplesGo(), chunk, func(lo, hi int, c bf.Ctr) {
 		for i := lo; i < hi; i++ {
 			r := lib.NewRng("c12/"+n, i)
 			xv := d.gen.Draw(r)
